@@ -109,6 +109,26 @@ theorem C08_pull_matches_list (p : Option (Pred ι μ)) (items : List (ι × μ)
     exact ⟨hseed.2.1, hinc.1⟩
   · rw [fold_append, hseed.2.2, hinc.2, hops.2.2, hlist]
 
+/-- Read mask: `Pull` applies the mask's projection to seeds and, for live events, AFTER `include` — so
+the predicate always judges the stored, unmasked values, exactly as `List` and the seed do.  For
+every projection `proj` (any function on messages), predicate, contents and write history: the
+stream a `Pull(WithInclude p, WithReadMask m)` subscriber is sent is a well-formed history from the
+empty view and folds to the projection of `List(WithInclude p)`'s view — the masked filtered
+collection — after every write. -/
+theorem C08_pull_masked_matches_list (p : Option (Pred ι μ)) (proj : μ → μ) (items : List (ι × μ))
+    (hn : NodupKeys items) (order : List (ι × μ)) (hperm : order.Perm (itemSlice p items))
+    (t t' : Nat) (ops : List (Op ι μ)) :
+    let r := runOps t items ops
+    let stream := (seedFrom t' order).map (maskChange proj) ++ r.2.filterMap (pullEvent p proj)
+    WFHist View.empty stream ∧
+    fold stream View.empty = projView proj (viewOf (itemSlice p r.1)) := by
+  have h := C08_pull_matches_list p items hn order hperm t t' ops
+  have hm := mask_hist proj View.empty _ h.1
+  have he : projView proj (View.empty : View ι μ) = View.empty := by funext i; rfl
+  rw [he] at hm
+  simp only [filterMap_pullEvent, ← List.map_append]
+  exact ⟨hm.1, by rw [hm.2, h.2.1]⟩
+
 /-- The same through lossy delivery (`WithBackpressure(false)`): for every well-formed stream of
 published events and EVERY recv/emit pattern of the `mergeCollectionExcess` goroutine, the
 include-filtered emitted stream is a well-formed history of the filtered collection and folds to the
